@@ -285,3 +285,15 @@ Proof.
   intros V SC Hs Hc it EN. rewrite client_file_v1.
   apply (tree_file_v1_l lay1_str h cd e pretty closed encbody V (HeaderInit.lay1_str_ok h V) SC Hs Hc EN).
 Qed.
+
+(** * the UTF-8 layer between the writers and the reader, for Unicode scalar text: both writers' encoders produce the same bytes,
+      and the reader's strict decoder returns the text *)
+Theorem utf8_layer_roundtrip_l s : scalar_text s = true ->
+  utf8_strict s = OK (utf8_xcr s) /\ decode_opt 2 (utf8_xcr s) = Some s.
+Proof.
+  intro H. split.
+  - induction s as [|x s IH]; [reflexivity|]. cbn [scalar_text forallb] in H. apply andb_true_iff in H. destruct H as [Hx Hs].
+    apply andb_true_iff in Hx. destruct Hx as [Hsur _]. apply negb_true_iff in Hsur. cbn [utf8_strict utf8_xcr]. rewrite Hsur.
+    rewrite (IH Hs). reflexivity.
+  - pose proof (HeaderCodec.codec_ok 2 [] s (utf8_xcr s) eq_refl (utf8_encoders_agree s H)) as D. exact D.
+Qed.
